@@ -124,6 +124,7 @@ func ruleJSONDEFAULTS(c *Ctx, r *Report) {
 			}
 		}
 		// constants compared in the encoder
+		badOp := ""
 		compared := map[string]string{}
 		for _, bb := range enc.Blocks {
 			for _, in := range bb.Instrs {
@@ -134,6 +135,9 @@ func ruleJSONDEFAULTS(c *Ctx, r *Report) {
 				for _, pair := range [][2]ssa.Value{{bo.X, bo.Y}, {bo.Y, bo.X}} {
 					if k, ok := pair[1].(*ssa.Const); ok && k.Value != nil && strings.HasSuffix(c.key(pair[0], nil), "."+f.Name()) {
 						compared[normNum(k.Value)] = c.instrPos(in)
+						if op := bo.Op.String(); op != "!=" && op != "==" {
+							badOp = op
+						}
 					}
 				}
 			}
@@ -141,6 +145,8 @@ func ruleJSONDEFAULTS(c *Ctx, r *Report) {
 		key := "field|" + f.Name()
 		cs, ss := setKeys(boolMap(compared)), setKeys(boolMap(stored))
 		switch {
+		case badOp != "":
+			r.bad(rule, key, c.pos(enc.Pos()), fmt.Sprintf("the encoder decides whether to write %s with the comparison `%s %s` instead of (in)equality with the default: values on the other side of the default (e.g. 0) are dropped from the encoding and decode as the default", f.Name(), badOp, strings.Join(cs, ",")))
 		case len(cs) != 1:
 			r.bad(rule, key, c.pos(enc.Pos()), fmt.Sprintf("the encoder compares %s with %v before omitting the member; expected exactly one default", f.Name(), cs))
 		case len(ss) == 0:
